@@ -26,6 +26,14 @@
 #   include <cds/container/feldman_hashset_hp.h>
 #   include <cds/container/feldman_hashset_dhp.h>
 #   include <cds/container/feldman_hashset_rcu.h>
+#elif FAMILY == 6
+#   include "maps.h"
+#   include <cds/container/michael_kvlist_hp.h>
+#   include <cds/container/michael_kvlist_rcu.h>
+#   include <cds/container/michael_map.h>
+#   include <cds/container/michael_map_rcu.h>
+#   include <cds/container/split_list_map.h>
+#   include <cds/container/feldman_hashmap_hp.h>
 #elif FAMILY == 5
 #   include "intrusive.h"
 #   include <cds/intrusive/michael_list_hp.h>
@@ -205,6 +213,37 @@ template <> inline ifh_rcu* make_set<ifh_rcu>( SetCfg const& ) { return new ifh_
 }
 #endif
 
+#if FAMILY == 6
+namespace {
+struct int_less { bool operator()( int a, int b ) const { return a < b; } };
+struct int_hash2 { size_t operator()( int k ) const { return size_t( k % 2 ); } };
+struct int_hash_id { size_t operator()( int k ) const { return size_t( k ); } };
+struct caps_hmap: caps_map_hp {};
+struct caps_hmap_rcu: caps_map_rcu {};
+struct caps_hmap_repl: caps_map_hp { typedef std::true_type update_replaces; };
+// MichaelHashMap over MichaelKVList
+struct kvl_tr: public cc::michael_list::traits { typedef int_less less; };
+struct mm_tr: public cc::michael_map::traits { typedef int_hash2 hash; typedef cds::atomicity::item_counter item_counter; };
+typedef MapWrap< cc::MichaelHashMap<cds::gc::HP, cc::MichaelKVList<cds::gc::HP, int, long, kvl_tr>, mm_tr> > mhm_hp;
+typedef MapWrap< cc::MichaelHashMap<rcu_gpb, cc::MichaelKVList<rcu_gpb, int, long, kvl_tr>, mm_tr> > mhm_rcu;
+// SplitListMap
+struct slm_tr: public cc::split_list::traits {
+    typedef cc::michael_list_tag ordered_list; typedef int_hash_id hash; typedef cds::atomicity::item_counter item_counter;
+    struct ordered_list_traits: public cc::michael_list::traits { typedef int_less less; };
+};
+typedef MapWrap< cc::SplitListMap<cds::gc::HP, int, long, slm_tr> > slm_hp;
+// FeldmanHashMap: the hash of a key is the key itself
+struct fhm_tr: public cc::feldman_hashmap::traits { typedef int_hash_id hash; typedef cds::atomicity::item_counter item_counter; };
+typedef MapWrap< cc::FeldmanHashMap<cds::gc::HP, int, long, fhm_tr> > fhm_hp;
+}
+namespace vh {
+template <> inline mhm_hp* make_set<mhm_hp>( SetCfg const& ) { return new mhm_hp( 2, 1 ); }
+template <> inline mhm_rcu* make_set<mhm_rcu>( SetCfg const& ) { return new mhm_rcu( 2, 1 ); }
+template <> inline slm_hp* make_set<slm_hp>( SetCfg const& ) { return new slm_hp( 8, 1 ); }
+template <> inline fhm_hp* make_set<fhm_hp>( SetCfg const& ) { return new fhm_hp( 4, 2 ); }
+}
+#endif
+
 int main( int argc, char** argv )
 {
     vh::take_property( argc, argv, "C14" );
@@ -238,6 +277,13 @@ int main( int argc, char** argv )
     growth<fh_dhp, DhpHolder, caps_hash_repl>( "FeldmanHashSet", { 1, 2, 17, 65, 257, 33 }, 1, 2 );
     family<fh_rcu, GpbHolder, caps_feldman_rcu>( "FeldmanHashSet", { 1, 17, 65 }, 16, 2, 3, { 1, 17, 33, 65 } );
     growth<fh_rcu, GpbHolder, caps_hash_rcu_repl>( "FeldmanHashSet", { 1, 2, 17, 65, 257, 33 }, 2, 3 );
+#elif FAMILY == 6
+    family<mhm_hp, HpHolder<8>, caps_hmap>( "MichaelHashMap-MichaelKVList", { 1, 3, 2 }, 8 );
+    family<mhm_rcu, GpbHolder, caps_hmap_rcu>( "MichaelHashMap-MichaelKVList", { 1, 3, 2 }, 16 );
+    family<slm_hp, HpHolder<8>, caps_hmap>( "SplitListMap-MichaelList", { 1, 3, 2 }, 12 );
+    growth<slm_hp, HpHolder<8>, caps_hmap>( "SplitListMap-MichaelList", { 1, 2, 3, 7, 5, 6 }, 1, 2 );
+    family<fhm_hp, HpHolder<8>, caps_hmap_repl>( "FeldmanHashMap", { 1, 17, 65 }, 12 );
+    growth<fhm_hp, HpHolder<8>, caps_hmap_repl>( "FeldmanHashMap", { 1, 2, 17, 65, 257, 33 }, 1, 2 );
 #elif FAMILY == 5
     family<imhs, HpHolder<8>, caps_ih>( "intrusive-MichaelHashSet-MichaelList", { 1, 3, 2 }, 8 );
     family<isls, HpHolder<8>, caps_ih>( "intrusive-SplitListSet-MichaelList", { 1, 3, 2 }, 12 );
